@@ -121,7 +121,7 @@ Section Proofs.
 
   Lemma admin_emit_noise ev data : encodable ev data -> noise adm_isolated (admin_emit ev data).
   Proof.
-    intros (p & enc & Hp & He) s HJ. unfold Wrappers.admin_emit, mgr_emit.
+    intros (p & pieces & Hp & He) s HJ. unfold Wrappers.admin_emit, mgr_emit.
     rewrite bindM_getS.
     destruct (ns_rooms (mg s) adm) as [rm|] eqn:Ens.
     - rewrite Hp, bindM_lift_ok, He, bindM_lift_ok. cbn [participants]. rewrite bindM_lift_ok.
